@@ -42,16 +42,17 @@ type nilCompiler = frontend.Compiler
 type Ctx struct {
 	nilAPI      // nil: API methods not implemented below panic when called
 	nilCompiler // nil: same for compiler methods
-	nextID   int
-	NodeCnt  int
-	Atoms    []*Term
-	Cons     []Constraint
-	Hints    []HintRec
-	deferred []func(frontend.API) error
-	kv       map[any]any
+	nextID      int
+	NodeCnt     int
+	Atoms       []*Term
+	Cons        []Constraint
+	Hints       []HintRec
+	deferred    []func(frontend.API) error
+	kv          map[any]any
 	// ShadowOn: inputs carry concrete values and every node is evaluated alongside; hints are
 	// computed with the real hint functions (honest prover).
-	ShadowOn bool
+	ShadowOn  bool
+	AliasMode bool // compound results are mutable accumulators (see Mut)
 	// Self is the API value handed to circuit code (one of the capability wrappers).
 	Self frontend.API
 	// CommitSummary: when a lookup argument (logderivarg) is built on top of Commit, membership
@@ -120,9 +121,26 @@ func (e *Ctx) NamedAtom(name, kind string, hi *big.Int) *Term {
 
 // K converts a frontend.Variable to a term, exactly as gnark's utils.FromInterface does for
 // constants.
+// Mut is a linear expression handed out in alias mode: gnark's builders may extend the storage of
+// the first operand of MulAcc in place (frontend.API: "MulAcc ... may mutate a without allocating a
+// new result. If the input is used elsewhere, then first initialize new variable"). In alias mode
+// every compound result is such an object and MulAcc always uses that licence, so code that keeps
+// using the old value of an accumulator is seen to read the new one.
+type Mut struct{ T *Term }
+
+func (e *Ctx) wrap(t *Term) frontend.Variable {
+	if !e.AliasMode || t.Op == OpAtom || t.Op == OpConst {
+		return t
+	}
+	return &Mut{T: t}
+}
+
 func (e *Ctx) K(v frontend.Variable) *Term {
 	if t, ok := v.(*Term); ok {
 		return t
+	}
+	if m, ok := v.(*Mut); ok {
+		return m.T
 	}
 	var b big.Int
 	switch x := v.(type) {
@@ -292,25 +310,32 @@ func (e *Ctx) Add(a, b frontend.Variable, in ...frontend.Variable) frontend.Vari
 	for _, x := range in {
 		r = e.bin(OpAdd, r, e.K(x))
 	}
-	return r
+	return e.wrap(r)
 }
 func (e *Ctx) Mul(a, b frontend.Variable, in ...frontend.Variable) frontend.Variable {
 	r := e.bin(OpMul, e.K(a), e.K(b))
 	for _, x := range in {
 		r = e.bin(OpMul, r, e.K(x))
 	}
-	return r
+	return e.wrap(r)
 }
 func (e *Ctx) Sub(a, b frontend.Variable, in ...frontend.Variable) frontend.Variable {
 	r := e.bin(OpSub, e.K(a), e.K(b))
 	for _, x := range in {
 		r = e.bin(OpSub, r, e.K(x))
 	}
-	return r
+	return e.wrap(r)
 }
-func (e *Ctx) Neg(a frontend.Variable) frontend.Variable { return e.bin(OpSub, e.Const(zero), e.K(a)) }
+func (e *Ctx) Neg(a frontend.Variable) frontend.Variable {
+	return e.wrap(e.bin(OpSub, e.Const(zero), e.K(a)))
+}
 func (e *Ctx) MulAcc(a, b, c frontend.Variable) frontend.Variable {
-	return e.bin(OpAdd, e.K(a), e.bin(OpMul, e.K(b), e.K(c)))
+	r := e.bin(OpAdd, e.K(a), e.bin(OpMul, e.K(b), e.K(c)))
+	if m, ok := a.(*Mut); ok && e.AliasMode {
+		m.T = r // the accumulator's storage is reused
+		return m
+	}
+	return e.wrap(r)
 }
 
 func (e *Ctx) site() string {
@@ -758,6 +783,6 @@ func (c *CommitAPI) Commit(v ...frontend.Variable) (frontend.Variable, error) {
 	return a, nil
 }
 
-func NewPlain() *Plain   { e := NewCtx(); w := &Plain{e}; e.Self = w; return w }
-func NewNative() *Native { e := NewCtx(); w := &Native{e}; e.Self = w; return w }
+func NewPlain() *Plain      { e := NewCtx(); w := &Plain{e}; e.Self = w; return w }
+func NewNative() *Native    { e := NewCtx(); w := &Native{e}; e.Self = w; return w }
 func NewCommit() *CommitAPI { e := NewCtx(); w := &CommitAPI{Ctx: e}; e.Self = w; return w }
